@@ -51,6 +51,9 @@ def run(F, rep, tier):
     c03.declared_types_known(F, rep)
     # a shape requirement (field, variant, index) recorded on a node survives that node being unified with another
     c03.unification_core(F, rep)
+    # tuples of different lengths do not unify (in either direction)
+    import core
+    core.borrow(rep, c03.obligations, lambda o: "tuple-length" in o["key"], F)
 
 
 def blob_arm(F, rep):
